@@ -21,7 +21,8 @@ RULE = (
     "the whole result set and on the single-row views m[i]. Checked: energy() == Total<SEP>energy == sum of every "
     "breakdown; every breakdown == the marginal of the finest one; latency() == Total<SEP>latency == sum over Einsums of "
     "the max component latency; per-component latency == sum over Einsums; resource_usage()[mem] == max over the "
-    "reservation columns of mem; list/scalar shape of every returned value. Non-trivial: >= 2 Einsums AND >= 2 returned "
+    "reservation columns of mem (also on a copy of the table with two extra reservation columns per memory, since final "
+    "results carry a single consolidated one); list/scalar shape of every returned value. Non-trivial: >= 2 Einsums AND >= 2 returned "
     "rows AND a non-zero leak energy. Distinct = distinct spec descriptor."
 )
 ASSUMPTIONS = [
@@ -293,6 +294,30 @@ def check(desc, col):
     for i in sorted({0, n - 1, n // 2}):
         check_view(m[i], einsum_names, single=True, counts=counts)
         col.label("single_row_view")
+    # ---- several reservation columns per memory ------------------------------------------------------
+    # Final mapper results carry one consolidated reservation column per memory, so "max over the reservation columns"
+    # would be vacuous on them.  Tables with several columns per memory arise inside the joiner; build one from the real
+    # result (extra columns at other loop levels / sides with smaller and larger values) and ask the same question.
+    if raw0["reservation"]:
+        from accelforge.mapper.FFM.mappings import Mappings
+
+        df = m.data.copy()
+        want = {}
+        for j, mem in enumerate(sorted(raw0["reservation"])):
+            basecol = [c for c in m.data.columns if c.split(SEP)[:2] == ["reservation", mem]][0]
+            b = [float(x) for x in m.data[basecol]]
+            extra = {f"reservation{SEP}{mem}{SEP}0{SEP}left": [x * 0.5 + 0.125 * (i % 2) for i, x in enumerate(b)],
+                     f"reservation{SEP}{mem}{SEP}1{SEP}right": [x * 0.25 + 0.0625 * ((i + j) % 3) for i, x in enumerate(b)]}
+            for c, v in extra.items():
+                if c not in df.columns:
+                    df[c] = v
+            cols = [c for c in df.columns if c.split(SEP)[:2] == ["reservation", mem]]
+            want[mem] = [max(float(df[c].iloc[i]) for c in cols) for i in range(n)]
+        syn = Mappings(m.spec, m.einsum_names, df, m.total_mappings, m.valid_mappings, m.flattened_arches, m.evaluated_specs)
+        for lio in (False, True):
+            got = must(syn.resource_usage, list_if_one_mapping=lio, what="resource_usage on a table with 3 reservation columns per memory")
+            cmp_dict(got, want, n, n == 1, lio, f"[synthetic reservations] resource_usage(list_if_one={lio})", "usage:max")
+        col.label("synthetic_reservation_columns")
     for k, v in counts.items():
         col.labels["calls:" + k] += v
 
